@@ -616,24 +616,34 @@ func c06Cls(s *c06Scn, o c06Obs) string {
 	if s.Claim.Deleting {
 		claimKind = "deleting"
 	} else if s.Claim.Ref != "" {
-		claimKind = "bound"
+		claimKind = "bound-missing"
 		for _, x := range s.XRs {
 			if x.Name == s.Claim.Ref {
 				claimKind = "bound-" + map[string]string{"self": "self", "other": "foreign", "": "unbound"}[x.Ref]
 			}
 		}
 	}
-	stale, faults, crash, env, created, upg := false, 0, false, 0, false, false
+	stale, crash, errf, env, created, upg, del := false, false, false, false, false, false, false
 	for i, rec := range s.Recs {
 		stale = stale || rec.Read.Stale
-		faults += len(rec.Faults)
-		env += len(rec.Env)
 		upg = upg || rec.Up != ""
 		if i < len(o.Recs) {
+			n := len(o.Recs[i].Calls)
 			crash = crash || o.Recs[i].Res == "crashed"
 			for _, c := range o.Recs[i].Calls {
-				if c.Obj == "xr" && c.Applied && (c.Verb == "create") {
-					created = true
+				if c.Obj == "xr" && c.Applied && (c.Verb == "create" || (c.PT == "apply" && c.Verb == "patch")) {
+					created = true // created or (re)applied
+				}
+				if c.Obj == "xr" && c.Applied && c.Verb == "delete" {
+					del = true
+				}
+				if c.Outcome == "fail" || c.Outcome == "conflict" {
+					errf = true
+				}
+			}
+			for _, e := range rec.Env {
+				if e.After >= 0 && e.After < n-1 {
+					env = true // an environment action landed between two calls of the reconcile
 				}
 			}
 		}
@@ -644,7 +654,17 @@ func c06Cls(s *c06Scn, o c06Obs) string {
 		}
 		return "-"
 	}
-	return fmt.Sprintf("%s/%s/%s%s%s%s/f%d/e%d", s.Syncer, claimKind, b(stale, "S"), b(crash, "C"), b(created, "N"), b(upg, "U"), min(faults, 3), min(env, 3))
+	// S stale claim read, C crash, F injected error/conflict, E environment step between two calls,
+	// A XR created/applied, D XR deleted, U managed-fields upgrade patch
+	return fmt.Sprintf("%s/%s/%s%s%s%s%s%s%s", s.Syncer, claimKind, b(stale, "S"), b(crash, "C"), b(errf, "F"), b(env, "E"), b(created, "A"), b(del, "D"), b(upg, "U"))
+}
+
+func c06Clone(s c06Scn) c06Scn {
+	var out c06Scn
+	if err := jsonUnmarshalStrict([]byte(mustJSON(s)), &out); err != nil {
+		panic(err)
+	}
+	return out
 }
 
 func init() {
@@ -656,10 +676,31 @@ func init() {
 				c.Emit(s, obs, mons, "corpus")
 			}
 		}
-		for i := 0; i < c.N; i++ {
+		for i := 0; i < c.N; {
 			s := c06Gen(c.Rng, c.Tier)
+			if c.Tier == "thorough" && c.Rng.Chance(1, 30) {
+				// exhaustive small scope: one reconcile of the history, every call index x every outcome
+				j := c.Rng.Intn(len(s.Recs))
+				base := c06Clone(s)
+				base.Recs[j].Faults = []c06Fault{}
+				bobs, bmons := c06Run(&base)
+				c.Emit(base, bobs, bmons, "x/"+c06Cls(&base, bobs))
+				i++
+				ncalls := len(bobs.Recs[j].Calls)
+				for k := 0; k < ncalls; k++ {
+					for _, o := range []string{"fail", "conflict", "crashBefore", "crashAfter"} {
+						v := c06Clone(s)
+						v.Recs[j].Faults = []c06Fault{{K: k, O: o}}
+						obs, mons := c06Run(&v)
+						c.Emit(v, obs, mons, "x/"+c06Cls(&v, obs))
+						i++
+					}
+				}
+				continue
+			}
 			obs, mons := c06Run(&s)
 			c.Emit(s, obs, mons, c06Cls(&s, obs))
+			i++
 		}
 	})
 }
